@@ -7,6 +7,8 @@ import (
 	"go/token"
 	"go/types"
 	"reflect"
+	"rscheck/rules/c01"
+	"rscheck/rules/reent"
 	"strings"
 
 	"golang.org/x/tools/go/cfg"
@@ -50,7 +52,26 @@ type rx struct {
 	litOf map[types.Object]*ast.CompositeLit
 }
 
+func reentrant(c *core.Ctx) {
+	var roots []*core.Fn
+	if f := c.FuncOpt("redis-shake", "CmdDecode", "decoderMain"); f != nil {
+		roots = append(roots, f)
+	}
+	for _, n := range []string{"DecodeDump"} {
+		if f := c.FuncOpt("pkg/rdb", "", n); f != nil {
+			roots = append(roots, f)
+		}
+		if f := c.FuncOpt("pkg/libs/cupcake/rdb", "", n); f != nil {
+			roots = append(roots, f)
+		}
+	}
+	reent.Check(c, "R6.reentrant", roots, []string{"redis-shake", "pkg/rdb", "pkg/libs/cupcake/rdb", "pkg/libs/cupcake/rdb/crc64", "pkg/rdb/digest"}, "the parallel decode workers")
+	// what the lines carry (db, expiry, key, type) is bound by the parser as C01 requires
+	c01.EntryRules(c)
+}
+
 func Run(c *core.Ctx) {
+	defer reentrant(c)
 	dm := c.Func(pkgRun, "CmdDecode", "decoderMain")
 	dec := c.Func(pkgRun, "CmdDecode", "decode")
 	if dm != nil {
